@@ -238,7 +238,8 @@ impl<'a> Ctx<'a> {
 
     // ------------------------------------------------------------------------------------------ function bodies
     fn ret(&self, v: L) -> R<L> {
-        let self_l = || self.locals.get("self").map(|x| L::A(x.0.clone())).ok_or("no self".to_string());
+        let key = self.mut_param.clone().unwrap_or("self".to_string());
+        let self_l = || self.locals.get(&key).map(|x| L::A(x.0.clone())).ok_or("no self".to_string());
         match self.ret {
             RetMode::Plain => Ok(v),
             RetMode::MutSelfUnit => self_l(),
@@ -385,6 +386,36 @@ impl<'a> Ctx<'a> {
             }
             Expr::Match(m) => Ok(self.match_expr(m, &Ty::Unit, Some((conts, false)))?.0),
             Expr::ForLoop(f) => self.search_loop(f, conts),
+            // `f(&mut x, args…);` with `f` a translated function that updates its first argument:  `let x := f x args…`
+            Expr::Call(c) => {
+                let name = match &*c.func {
+                    Expr::Path(p) if p.path.get_ident().is_some() => p.path.get_ident().unwrap().to_string(),
+                    _ => return Err(format!("expression statement `{}` is outside the fragment", quote::quote!(#e))),
+                };
+                let sig = match self.w.fns.get(&("".to_string(), name.clone())).and_then(|v| v.iter().find(|s| s.mut_first)) {
+                    Some(s) => s.clone(),
+                    None => return Err(format!("call statement of `{name}`, which is not a translated function with a `&mut` first parameter")),
+                };
+                let args: Vec<&Expr> = c.args.iter().collect();
+                if args.len() != sig.params.len() {
+                    return Err(format!("arity mismatch calling {name}"));
+                }
+                let target = match args[0] {
+                    Expr::Reference(r) if r.mutability.is_some() => &*r.expr,
+                    _ => return Err(format!("first argument of `{name}` is not `&mut place`")),
+                };
+                let mut ls = vec![];
+                for (a, (_, pt)) in args.iter().zip(sig.params.iter()) {
+                    let (l, t) = self.expr(a, pt)?;
+                    if !pt.compatible(&t) {
+                        return Err(format!("argument of type {:?} where {name} expects {:?}", t, pt));
+                    }
+                    ls.push(l);
+                }
+                let (n, v) = self.assign_into(target, L::App(sig.lean.clone(), ls))?;
+                let b = self.cont(conts)?;
+                Ok(L::Let(n, Box::new(v), Box::new(b)))
+            }
             _ => Err(format!("expression statement `{}` is outside the fragment", quote::quote!(#e))),
         }
     }
@@ -410,6 +441,21 @@ impl<'a> Ctx<'a> {
     fn assign_into(&mut self, lhs: &Expr, v: L) -> R<(String, L)> {
         match lhs {
             Expr::Paren(p) => self.assign_into(&p.expr, v),
+            // destructuring assignment `(a, b) = e` to plain locals
+            Expr::Tuple(t) if !t.elems.is_empty() => {
+                let mut names = vec![];
+                for x in &t.elems {
+                    match x {
+                        Expr::Path(p) if p.path.get_ident().is_some() => {
+                            let n = p.path.get_ident().unwrap().to_string();
+                            let (l, _) = self.locals.get(&n).cloned().ok_or(format!("assignment to non-local `{n}`"))?;
+                            names.push(l);
+                        }
+                        _ => return Err("destructuring assignment to something other than plain locals".into()),
+                    }
+                }
+                Ok((format!("({})", names.join(", ")), v))
+            }
             Expr::Path(p) => {
                 let n = p.path.get_ident().ok_or("assignment to a path")?.to_string();
                 let (l, _) = self.locals.get(&n).cloned().ok_or(format!("assignment to non-local `{n}`"))?;
